@@ -335,8 +335,8 @@ class C13(PropBase):
 
     def enumerate(self, tier):
         """full duplex, both transmissions paced by a non-zero STmin: each layer streams its Consecutive Frames for longer than N_Cr while it
-        is itself in the middle of a reception - it has to keep reading the bus between its own frames (N_Cr 700 ms against 20 ms
-        between frames: three orders of magnitude above any scheduling delay seen)"""
+        is itself in the middle of a reception - it has to keep reading the bus between its own frames (N_Cr 1500 ms against 40 ms
+        between frames: far above any scheduling delay seen, also on a loaded machine)"""
         a = {'mode': 0, 'txid': 0x123, 'rxid': 0x456}
         b = {'mode': 0, 'txid': 0x456, 'rxid': 0x123}
         for k, transport in enumerate(['queue_blocking', 'queue_legacy', 'canstack'] if tier == 'quick' else
@@ -344,8 +344,8 @@ class C13(PropBase):
             n = 330 + 7 * k
             senders = {0: [[(1, bytes([0, 0, 0]) + bytes([0x11] * n))]], 1: [[(2, bytes([1, 0, 0]) + bytes([0x22] * n))]]}
             yield {'ops': [], 'seed': 4242 + k, 'transport': transport, 'addrs': (a, b),
-                   'params': ({'blocksize': 0, 'stmin': 20}, {'blocksize': 0, 'stmin': 20}), 'senders': senders, 'latency': 0,
-                   'read_timeout': 0.05, 'noise': False, 'perturb': 0, 'cf_timeout_ms': 700, 'fc_timeout_ms': 5000}
+                   'params': ({'blocksize': 0, 'stmin': 40}, {'blocksize': 0, 'stmin': 40}), 'senders': senders, 'latency': 0,
+                   'read_timeout': 0.05, 'noise': False, 'perturb': 0, 'cf_timeout_ms': 1500, 'fc_timeout_ms': 5000}
 
     def run_impl(self, sc):
         return run_threaded(sc)
